@@ -4,6 +4,7 @@ import Astisub.Driver.IO
 import Astisub.Driver.LinCorr
 import Astisub.Driver.Lib
 import Astisub.Driver.SRT
+import Astisub.Driver.Conv
 import Astisub.Driver.VTT
 import Astisub.Driver.SSA
 import Astisub.Driver.Teletext
@@ -22,6 +23,7 @@ def handleLine (line : String) : Verdict :=
     else if op.startsWith "ops." then handleOps3 op args impl
     else if op == "lib.html" then handleLib op args impl
     else if op.startsWith "srt." then handleSRT op args impl
+    else if op.startsWith "conv." then handleConv op args impl
     else if op.startsWith "ts." then handleTs op args impl
     else if op.startsWith "io." || op == "lib.scanner" || op == "det.write" || op == "conc.batch" then handleIO op args impl
     else if op.startsWith "vtt." then handleVTT op args impl
